@@ -410,4 +410,41 @@ example :
     (runD .onlyIfUnset (fun v => v) { source := 1, derived := none }
       [.init, .mutate 5, .init]).derived = some 1 := by decide
 
+/-! ### (8) getters are functions of their current arguments -/
+
+/-- whatever a getter of `Control` / `ChainControl` keeps between calls is keyed on every
+    argument the kept value depends on (the table is empty when the getters keep nothing) -/
+theorem getter_table : ∀ s ∈ getterStores, getterOK s = true := by decide
+
+/-- **getter_current.**  For every attribute a getter keeps, any value `f` that depends only on
+    the arguments the translator saw it use, and any history of calls (on any time grid) and
+    resets: a call returns `f` of its *own* arguments. -/
+theorem getter_current {Out : Type} (s : GetterStore) (hs : s ∈ getterStores)
+    (f : (String → Val) → Out)
+    (hf : ∀ e e' : String → Val, (∀ a ∈ s.used, e a = e' a) → f e = f e')
+    (hist : List GOp) (args : List (String × Val)) :
+    (stepG s.keyedOn f (runG s.keyedOn f { kept := none } hist) (.call args)).2
+      = some (f (gArg args)) := by
+  have hsub : ∀ a ∈ s.used, a ∈ s.keyedOn := by
+    have := getter_table s hs
+    simp only [getterOK, List.all_eq_true] at this
+    intro a ha
+    simpa using this a ha
+  apply gcall_sound
+  apply ginv_run s.used s.keyedOn f hsub hf
+  intro k out h; simp at h
+
+/-- the general statement does not depend on the table being non-empty: a store keyed on all
+    used arguments answers for the second grid, one keyed on nothing answers with the first
+    grid's value (`dt` 1 then 2) -/
+example :
+    outsG ["dt", "start_time"] (fun e => e "dt" + 10 * e "start_time") { kept := none }
+      [.call [("dt", 1), ("start_time", 0)], .call [("dt", 2), ("start_time", 0)]]
+      = [some 1, some 2] ∧
+    outsG [] (fun e => e "dt" + 10 * e "start_time") { kept := none }
+      [.call [("dt", 1), ("start_time", 0)], .call [("dt", 2), ("start_time", 0)]]
+      = [some 1, some 1] ∧
+    getterOK ⟨"", "Control._time_stamp_steps", "_control_steps", 0, ["pre_post", "dt", "start_time"],
+      ["pre_post"]⟩ = false := by decide
+
 end OQuPyVerif.Props.C20
